@@ -55,6 +55,7 @@ def split_name(nm):
 def parse_details(snap, env):
     """observed details -> [{"b","n","cids":[...],"epoch":int}]"""
     out = []
+    used_fmarks = set()
     for nm, ctype, data in snap or []:
         b, n = split_name(nm)
         text = data.decode("utf8", "replace")
@@ -78,10 +79,13 @@ def parse_details(snap, env):
         # framework-raised exceptions carry no marker of ours: recognise them by their text
         if "Forced Test Failure" in text:
             cids.append("tb:force:%d" % (env.nraised + 1))
-        for snippet, cid in env.fmarks:
-            if snippet in text:
-                # a framework exception raised while handling ours chains ours into its traceback text
+        for k, (snippet, cid) in enumerate(env.fmarks):
+            if snippet in text and k not in used_fmarks:
+                # a framework exception raised while handling ours chains ours into its traceback text;
+                # several framework exceptions with the same text (nested SetupErrors) are taken in order
                 cids = [c for c in cids if not c.startswith("tb:")] + [cid]
+                used_fmarks.add(k)
+                break
         out.append({"b": b, "n": n, "cids": cids or ["?"], "epoch": epoch})
     return out
 
